@@ -25,7 +25,8 @@
 // Non-convergence (SimTK::Exception::OptimizerFailed and other documented exceptions) is counted, not judged.
 // Legal-client preconditions: lb<=ub, x0 finite, x0 inside the box for CMAES (documented exception otherwise, counted)
 // and for the other bounded algorithms (so that "never worse than the start" is meaningful); constraints consistent with
-// a strictly feasible point for the inactive ones; tolerances in (0,1); CMAES needs >= 2 parameters.
+// a strictly feasible point for the inactive ones, equality rows linearly independent on the non-fixed variables and fewer
+// than those; tolerances in (0,1); CMAES needs >= 2 parameters.
 #include "SimTKmath.h"
 #include "vh.h"
 #include <iostream>
@@ -280,6 +281,32 @@ static void genConstraints(vh::Rng& r, Problem& P, int me, int mi, const std::ve
         P.d[k] = k < me ? v : v - (r.coin(0.3) ? 0.0 : r.uni(0.0, 2.0));    // inequality: C xf - d = slack >= 0
     }
 }
+// Legal-client precondition for the constrained problems (LICQ for the equalities): the equality rows, restricted to the
+// variables that are not fixed by lb==ub, are linearly independent and fewer than those variables. (Otherwise the problem is
+// degenerate; Ipopt then treats "as many equalities as free variables" as a square system and ignores the objective.)
+static bool equalitiesRegular(const Problem& P) {
+    if (P.me == 0) return true;
+    std::vector<int> fr; for (int i = 0; i < P.n; ++i) if (!(P.hasBounds && P.lb[i] == P.ub[i])) fr.push_back(i);
+    const int nf = (int)fr.size();
+    if (P.me > nf - 1) return false;
+    std::vector<std::vector<LD>> M(P.me, std::vector<LD>(nf));
+    for (int k = 0; k < P.me; ++k) for (int a = 0; a < nf; ++a) M[k][a] = P.C[k * P.n + fr[a]];
+    int rank = 0;
+    for (int col = 0; col < nf && rank < P.me; ++col) {
+        int piv = rank; for (int k = rank + 1; k < P.me; ++k) if (fabsl(M[k][col]) > fabsl(M[piv][col])) piv = k;
+        if (fabsl(M[piv][col]) < 1e-3L) continue;                       // well away from rank deficiency (rows have O(1) entries)
+        std::swap(M[piv], M[rank]);
+        for (int k = rank + 1; k < P.me; ++k) { LD f = M[k][col] / M[rank][col]; for (int a = col; a < nf; ++a) M[k][a] -= f * M[rank][a]; }
+        ++rank;
+    }
+    return rank == P.me;
+}
+static void genRegularConstraints(vh::Ctx& c, vh::Rng& r, Problem& P, int me, int mi, const std::vector<double>& xf) {
+    for (int tries = 0; tries < 6; ++tries) { genConstraints(r, P, me, mi, xf); if (equalitiesRegular(P)) return; }
+    c.obs("generator:degenerate-equalities-dropped");
+    if (mi == 0) mi = 1;
+    genConstraints(r, P, 0, mi, xf);
+}
 static bool insideBox(const Problem& P, const std::vector<double>& x) { if (!P.hasBounds) return true; for (int i = 0; i < P.n; ++i) if (x[i] < P.lb[i] || x[i] > P.ub[i]) return false; return true; }
 
 // ------------------------------------------------------------------------------------------------ one optimisation run
@@ -507,24 +534,40 @@ static void judge(vh::Ctx& c, const Problem& P, const RunCfg& cfg, const RunOut&
             int wi = 0; double e = excess(r.x, &wi), sl = slackOf(r.x);
             // an excursion of a few ulp of the bound (x_k + step*d rounded past the bound) is keyed apart from a gross one
             const bool ulpLevel = e > sl && e <= 8 * U * std::max(std::fabs(P.lb[wi]) < INF ? std::fabs(P.lb[wi]) : 0.0, std::fabs(P.ub[wi]) < INF ? std::fabs(P.ub[wi]) : 0.0) + 1e-300;
-            c.check(kv.first + (ulpLevel ? ":by-rounding(<=8ulp-of-bound)" : ""), e, sl, [&] {
+            c.check(ulpLevel ? std::string("outside-bounds-by-rounding(<=8ulp-of-bound)/") + algStr(alg) + ":evaluation" : kv.first, e, sl, [&] {
                 return Json::obj().set("argument", vh::jvec(r.x)).set("component", wi).set("excess", e).set("allowed_relaxation", sl).set("evaluation_index", (long)kv.second.k)
                     .set("lb_i", P.lb[wi]).set("ub_i", P.ub[wi]).set("problem", jprob(P, cfg)); });
         }
         int wi = 0; double e = excess(xr, &wi);
         const bool ulpLevel = e > 0 && e <= 8 * U * std::max(std::fabs(P.lb[wi]) < INF ? std::fabs(P.lb[wi]) : 0.0, std::fabs(P.ub[wi]) < INF ? std::fabs(P.ub[wi]) : 0.0) + 1e-300;
-        c.check("result-outside-bounds/" + an + ":" + gm + (ulpLevel ? ":by-rounding(<=8ulp-of-bound)" : ""), e, 0.0, [&] { return Json::obj().set("x", vh::jvec(xr)).set("component", wi).set("excess", e).set("problem", jprob(P, cfg)); });
+        c.check(ulpLevel ? std::string("outside-bounds-by-rounding(<=8ulp-of-bound)/") + algStr(alg) + ":result" : "result-outside-bounds/" + an + ":" + gm, e, 0.0, [&] { return Json::obj().set("x", vh::jvec(xr)).set("component", wi).set("excess", e).set("problem", jprob(P, cfg)); });
     }
     // constraints (interior point only)
     if (alg == InteriorPoint && P.me + P.mi > 0) {
-        double we = 0, wi = 0, te = cfg.ctol, ti = cfg.ctol; int ke = -1, ki = -1;
+        // Ipopt's stopping rule bounds the violation at the point it converged to; the point returned has afterwards been
+        // projected into the user's bounds (it may have been up to 1e-8*max(1,|bound|) outside: bound relaxation), which moves
+        // linear constraint values by at most sum_j |C_kj| * that shift; inequality bounds are themselves relaxed by 1e-8.
+        // A violation above ctol that this explains gets its own key (same root cause as the truthful-f finding).
+        double worst[2] = {0, 0}, worstExplained[2] = {0, 0}; int wk[2] = {-1, -1}, wke[2] = {-1, -1};
         for (int k = 0; k < P.me + P.mi; ++k) {
+            const int t = k < P.me ? 0 : 1;
             const double v = P.con(k, xr.data()), rnd = 4 * (n + 2) * U * P.conAbs(k, xr.data());
-            if (k < P.me) { if (std::fabs(v) - rnd > we) { we = std::fabs(v) - rnd; ke = k; } }
-            else if (-v - rnd > wi) { wi = -v - rnd; ki = k; }
+            const double viol = (t == 0 ? std::fabs(v) : -v) - rnd - cfg.ctol * 1.000001;
+            if (viol <= 0) { if (wk[t] < 0) wk[t] = k; continue; }
+            double allow = t == 1 ? 1.05e-8 : 0.0;
+            if (P.hasBounds) for (int j = 0; j < n; ++j) if (xr[j] <= P.lb[j] || xr[j] >= P.ub[j]) allow += 1.05e-8 * std::max(1.0, std::fabs(xr[j])) * std::fabs(P.C[k * n + j]);
+            if (viol <= allow) { if (viol > worstExplained[t]) { worstExplained[t] = viol; wke[t] = k; } }
+            else if (viol > worst[t]) { worst[t] = viol; wk[t] = k; }
         }
-        if (P.me > 0) c.check("constraint-violation/" + an + ":equality:" + gm, we, te * 1.000001 + 1e-8, [&] { return Json::obj().set("row", ke).set("violation", we).set("ctol", cfg.ctol).set("x", vh::jvec(xr)).set("problem", jprob(P, cfg)); });
-        if (P.mi > 0) c.check("constraint-violation/" + an + ":inequality:" + gm, wi, ti * 1.000001 + 1e-8, [&] { return Json::obj().set("row", ki).set("violation", wi).set("ctol", cfg.ctol).set("x", vh::jvec(xr)).set("problem", jprob(P, cfg)); });
+        for (int t = 0; t < 2; ++t) {
+            if ((t == 0 ? P.me : P.mi) == 0) continue;
+            const char* tn = t == 0 ? "equality" : "inequality";
+            c.check("constraint-violation/" + an + ":" + tn + ":" + gm, worst[t] + cfg.ctol, cfg.ctol, [&] {
+                return Json::obj().set("row", wk[t]).set("violation_beyond_ctol", worst[t]).set("ctol", cfg.ctol).set("x", vh::jvec(xr)).set("problem", jprob(P, cfg)); });
+            if (wke[t] >= 0)
+                c.viol(std::string("constraint-violation:InteriorPoint:") + tn + ":within-ctol-only-before-projection-into-bounds(bound-relaxation)",
+                       Json::obj().set("row", wke[t]).set("violation_beyond_ctol", worstExplained[t]).set("ctol", cfg.ctol).set("x", vh::jvec(xr)).set("problem", jprob(P, cfg)));
+        }
     }
     if (c.args.verbose) {
         std::vector<double> g(n); P.grad(xr.data(), g.data());
@@ -606,7 +649,7 @@ static void runCase(vh::Ctx& c, long idx, vh::Rng& r) {
             int me = n > 1 ? r.integer(0, std::min(n - 1, 3)) : 0, mi = r.integer(me == 0 ? 1 : 0, variant == 2 ? 3 : 5);
             // a feasible point: inside the box
             std::vector<double> xf = P.x0;
-            genConstraints(r, P, me, mi, xf);
+            genRegularConstraints(c, r, P, me, mi, xf);
             if (r.coin(0.3)) { for (int i = 0; i < n; ++i) P.x0[i] = xf[i] + r.sym(1.0); if (P.hasBounds) for (int i = 0; i < n; ++i) P.x0[i] = std::min(std::max(P.x0[i], P.lb[i]), P.ub[i]); P.x0Feasible = false; }
         }
         cfg.alg = InteriorPoint; setGradMode(r, cfg, slot == 5);
@@ -661,7 +704,7 @@ static void runCase(vh::Ctx& c, long idx, vh::Rng& r) {
         const int kind = (int)((idx / 10) % 3);          // 0 nothing -> LBFGS, 1 limits -> LBFGSB, 2 constraints -> InteriorPoint
         genQuadratic(r, P, kind == 2 ? r.integer(2, 6) : pickDim(r, idx / 3, 1, 20), 1e3);
         if (kind >= 1 && (kind == 1 || r.coin())) boundCls = genBounds(r, P, unconstrainedMin(P), 1 + std::fabs(P.x0[0]), 0.4);
-        if (kind == 2) genConstraints(r, P, r.integer(0, 1), r.integer(1, 3), P.x0);
+        if (kind == 2) genRegularConstraints(c, r, P, r.integer(0, 1), r.integer(1, 3), P.x0);
         cfg.construct = 1 + (int)((idx / 30) % 4);       // 1,2,3: BestAvailable spellings; 4 -> CFSQP request falls back when the library is absent
         if (cfg.construct == 4) { cfg.construct = 0; cfg.alg = CFSQP; }
         cfg.tol = std::max(cfg.tol, 1e-7); cfg.maxIter = 150;
